@@ -1062,8 +1062,23 @@ pub enum AppearanceStreamEntry {
 }
 impl Object for AppearanceStreamEntry {
     fn from_primitive(p: Primitive, resolve: &impl Resolve) -> Result<Self> {
+        // an appearance entry is a stream or a dictionary of streams; allow a little more nesting than that
+        AppearanceStreamEntry::from_primitive_depth(p, resolve, 4)
+    }
+}
+impl AppearanceStreamEntry {
+    fn from_primitive_depth(p: Primitive, resolve: &impl Resolve, depth: usize) -> Result<Self> {
         match p.resolve(resolve)? {
-            p @ Primitive::Dictionary(_) => Object::from_primitive(p, resolve).map(AppearanceStreamEntry::Dict),
+            Primitive::Dictionary(dict) => {
+                if depth == 0 {
+                    bail!("AppearanceStreamEntry nesting too deep");
+                }
+                let mut map = HashMap::new();
+                for (key, val) in dict.iter() {
+                    map.insert(key.clone(), t!(AppearanceStreamEntry::from_primitive_depth(val.clone(), resolve, depth-1)));
+                }
+                Ok(AppearanceStreamEntry::Dict(map))
+            }
             p @ Primitive::Stream(_) => Object::from_primitive(p, resolve).map(AppearanceStreamEntry::Single),
             p => Err(PdfError::UnexpectedPrimitive {expected: "Dict or Stream", found: p.get_debug_name()})
         }
